@@ -165,15 +165,20 @@ def _ldec(b, i):
         return out, i + 1
     if c == b"d":
         i += 1
-        out = []
+        out = {}
         while b[i:i + 1] != b"e":
             k, i = _ldec(b, i)
             v, i = _ldec(b, i)
-            out.append((k, v))
+            out[k] = v
         return out, i + 1
     j = b.index(b":", i)
     n = int(b[i:j])
     return b[j + 1:j + 1 + n], j + 1 + n
+
+
+def lenient_decode(b):
+    """Decode without demanding canonicity (dict order preserved, last duplicate wins)."""
+    return _ldec(b, 0)[0]
 
 
 def info_span(b):
